@@ -21,6 +21,8 @@ def step (st : St) (j : Json) : Except String (St × Drv.Out) := do
   | "msg" =>
     let m ← clientMsg (← fld j "msg")
     let impl ← asList serverMsg (← fld j "out")
+    if fldD j "stalled" == Json.bool true then
+      return (st, ({ nontrivial := true } : Drv.Out).mon "replies" "cache.stalled" s!"the cache handler did not finish serving {(clientMsgJ m).compress} within 20 s")
     let before := st.c.evs   -- the retained set (order is irrelevant to the monitors)
     let (c', r) := cacheReply st.c m
     let mut o : Drv.Out := { nontrivial := true }
@@ -82,6 +84,8 @@ def step (st : St) (j : Json) : Except String (St × Drv.Out) := do
     let impl ← asList serverMsg (← fld j "out")
     let mut o : Drv.Out := { nontrivial := true }
     o := o.tag "sqlite.msg"
+    if fldD j "stalled" == Json.bool true then
+      return (st, o.mon "replies" "sqlite.stalled" s!"the SQLite handler did not finish serving {(clientMsgJ m).compress} within 20 s")
     let accept := match m with | .event _ => some true | _ => none
     match HandlerSpec.replyShapeOk m impl accept with
     | some err => o := o.mon "replies" "sqlite.shape" s!"{(clientMsgJ m).compress} -> {(jList serverMsgJ impl).compress}: {err}"
